@@ -161,7 +161,8 @@ class C07(Check):
             if r < 0.15:
                 lines.append('')
             elif r < 0.3:
-                lines.append('#' + sp(0) + 'a comment line with maskbits X 3 Y "z" inside')
+                lines.append('#' + sp(0) + L.choice(['a comment line with maskbits X 3 Y "z" inside',
+                                                     'non-ASCII comment: \u00b5-lensing, \u00c5ngstr\u00f6m, \u03b1 > 3']))
             elif r < 0.35:
                 lines.append(sp())
         lines = []
@@ -187,9 +188,12 @@ class C07(Check):
             if L.random() < 0.7:
                 block.append('masktype%s%s%s%d%s"%s"' % (sp(), g, sp(), L.choice([8, 16, 32, 64]), sp(), 'Mask bits for ' + g))
             for l, b in d.items():
-                desc = L.choice(['x', 'some description', 'Bit %d of %s' % (b, g), ''])
+                desc = L.choice(['x', 'some description', 'Bit %d of %s' % (b, g), '', 'S/N > 3 \u03c3 (\u00b5-lensing)'])
                 struct = L.choice(['maskbits', 'maskbits', 'MASKBITS', 'Maskbits'])
                 row = '%s%s%s%s%s%s%s%s"%s"' % (struct, sp(), g, sp(), bitfmt % b, sp(), l, sp(), desc)
+                if L.random() < 0.15:
+                    # the trailing description is optional text: a row may simply leave it out
+                    row = '%s%s%s%s%s%s%s' % (struct, sp(), g, sp(), bitfmt % b, sp(), l)
                 if L.random() < 0.2:
                     row += sp() + '# trailing comment'
                 if L.random() < 0.15:
@@ -197,7 +201,8 @@ class C07(Check):
                 block.append(row)
             rows.append(block)
         for a, g in case['aliases'].items():
-            rows.append(['maskalias%s%s%s%s%s"alias of %s"' % (sp(), g, sp(), a, sp(), g)])
+            rows.append(['maskalias%s%s%s%s%s"alias of %s"' % (sp(), g, sp(), a, sp(), g) if L.random() < 0.8 else
+                         'maskalias%s%s%s%s' % (sp(), g, sp(), a)])
         # aliases must follow nothing in particular (set_maskbits resolves them after all rows are read)
         L.shuffle(rows)
         if L.random() < 0.4:
